@@ -86,8 +86,11 @@ pub fn run_chunk(args: &[Sx]) -> Sx {
         let dump_ok = res.is_ok();
         let stored = w.stored.borrow().clone();
         let mut got: Vec<Sx> = Vec::new();
+        // optional (cut k): the storage lost its last k bytes before the chunk is read back
+        let cut = if args.len() > 4 { args[4].tagged("cut")[0].usize() } else { 0 };
+        let stored_r: Vec<u8> = stored[..stored.len().saturating_sub(cut)].to_vec();
         if dump_ok {
-            let fr = FaultyR { data: stored.clone(), pos: 0, plan: args[3].tagged("rplan").to_vec(), fired: fired.clone() };
+            let fr = FaultyR { data: stored_r.clone(), pos: 0, plan: args[3].tagged("rplan").to_vec(), fired: fired.clone() };
             got = match stack {
                 "bare" => drain_chunk(Box::new(fr), items.len() + 2),
                 "buf" => drain_chunk(Box::new(BufReader::new(fr)), items.len() + 2),
@@ -180,6 +183,9 @@ pub fn run_xsort(args: &[Sx]) -> Sx {
         }
         let it = sorter.sort_by(items, cmp).expect("sort_by returned an error");
         emit(Sx::L(vec![a("len"), a(it.len())]));
+        // the returned stream does not borrow the sorter: dropping the sorter first must not matter
+        let mut sorter = Some(sorter);
+        if args.len() > 5 && args[5].atom() == "dropfirst" { sorter.take(); }
         let mut out = Vec::new();
         for r in it {
             match r {
@@ -187,7 +193,43 @@ pub fn run_xsort(args: &[Sx]) -> Sx {
                 Err(_) => out.push(Sx::L(vec![a("err"), a(0)])),
             }
         }
+        drop(sorter);
         emit(tag("out", out));
+    })
+}
+
+/// (xsortquota cs comp quota n): the real sorter with the process file-size limit (RLIMIT_FSIZE, SIGXFSZ ignored) set to
+/// `quota` bytes, i.e. a disk that fills up: either an error is reported (by sort_by or as an Err item) or every record
+/// comes back in order.  Judged here (oracle-only case): `ok` or an ORACLE-FAIL marker.
+pub fn run_xsortquota(args: &[Sx]) -> Sx {
+    with_panic(|emit| {
+        let n = args[3].u64();
+        let quota = args[2].u64();
+        let items: Vec<(u64, u64)> = (0..n).map(|i| ((i * 7919) % 1009, i)).collect();
+        let mut expect = items.clone();
+        expect.sort();
+        let dir = tempfile::tempdir_in(scratch()).expect("glue: tempdir");
+        let sorter = builder(&args[0], &a("1"), &args[1], dir.path()).build().expect("glue: build sorter");
+        let mut old = libc::rlimit { rlim_cur: 0, rlim_max: 0 };
+        unsafe {
+            libc::signal(libc::SIGXFSZ, libc::SIG_IGN);
+            libc::getrlimit(libc::RLIMIT_FSIZE, &mut old);
+            let new = libc::rlimit { rlim_cur: quota, rlim_max: old.rlim_max };
+            libc::setrlimit(libc::RLIMIT_FSIZE, &new);
+        }
+        let res = sorter.sort_by(items, |x: &(u64, u64), y: &(u64, u64)| x.cmp(y));
+        let verdict = match res {
+            Err(_) => "reported".to_string(),
+            Ok(it) => {
+                let got: Vec<Result<(u64, u64), ()>> = it.map(|r| r.map_err(|_| ())).collect();
+                if got.iter().any(|r| r.is_err()) { "reported".to_string() }
+                else if got.iter().map(|r| *r.as_ref().unwrap()).collect::<Vec<_>>() == expect { "complete".to_string() }
+                else { format!("ORACLE-FAIL:silent-loss-{}-of-{}", got.len(), n) }
+            }
+        };
+        unsafe { libc::setrlimit(libc::RLIMIT_FSIZE, &old); }
+        emit(a("oracle-only"));
+        emit(a(verdict));
     })
 }
 
@@ -219,11 +261,12 @@ pub fn run_xsort2(args: &[Sx]) -> Sx {
 }
 
 fn listing(root: &std::path::Path) -> Vec<Sx> {
-    fn walk(root: &std::path::Path, d: &std::path::Path, out: &mut Vec<String>) {
+    use std::os::unix::ffi::OsStrExt;
+    fn walk(root: &std::path::Path, d: &std::path::Path, out: &mut Vec<Vec<u8>>) {
         if let Ok(rd) = std::fs::read_dir(d) {
             for e in rd.flatten() {
                 let p = e.path();
-                out.push(p.strip_prefix(root).unwrap().to_string_lossy().into_owned());
+                out.push(p.strip_prefix(root).unwrap().as_os_str().as_bytes().to_vec());
                 if p.is_dir() { walk(root, &p, out); }
             }
         }
@@ -231,25 +274,27 @@ fn listing(root: &std::path::Path) -> Vec<Sx> {
     let mut v = Vec::new();
     walk(root, root, &mut v);
     v.sort();
-    v.into_iter().map(|s| hex(s.as_bytes())).collect()
+    v.into_iter().map(|s| hex(&s)).collect()
 }
 
 /// files this process holds open under `root` (also unlinked ones, shown by /proc as "... (deleted)"), relative to root
 fn open_under(root: &std::path::Path) -> Vec<Sx> {
-    let mut v = Vec::new();
+    use std::os::unix::ffi::OsStrExt;
+    let mut v: Vec<Vec<u8>> = Vec::new();
+    let rootb = root.as_os_str().as_bytes();
     if let Ok(rd) = std::fs::read_dir("/proc/self/fd") {
         for e in rd.flatten() {
             if let Ok(t) = std::fs::read_link(e.path()) {
-                let t = t.to_string_lossy().into_owned();
-                let t = t.strip_suffix(" (deleted)").unwrap_or(&t).to_string();
-                if let Ok(rel) = std::path::Path::new(&t).strip_prefix(root) {
-                    if !rel.as_os_str().is_empty() { v.push(rel.to_string_lossy().into_owned()); }
+                let mut t = t.as_os_str().as_bytes().to_vec();
+                if t.ends_with(b" (deleted)") { t.truncate(t.len() - 10); }
+                if t.len() > rootb.len() + 1 && t.starts_with(rootb) && t[rootb.len()] == b'/' {
+                    v.push(t[rootb.len() + 1..].to_vec());
                 }
             }
         }
     }
     v.sort();
-    v.into_iter().map(|s| hex(s.as_bytes())).collect()
+    v.into_iter().map(|s| hex(&s)).collect()
 }
 
 /// (tmp (steps ...) n_items exit k drop_order where): one lifetime of a sorter; prints recursive listings of a scratch
@@ -271,7 +316,15 @@ pub fn run_tmp(args: &[Sx]) -> Sx {
         let at = args[3].usize();                  // position of the panic / number of items consumed
         let order = args[4].atom().to_string();     // iter_first | sorter_first
         let wh = args[5].atom().to_string();
-        let cfg = if wh == "missing" { conf.join("not-there").join("x") } else { conf.clone() };
+        // nonutf8: the configured directory has a name that is not valid UTF-8; relchdir: it is given as a RELATIVE path
+        // and the process changes its working directory while the sorter is alive
+        use std::os::unix::ffi::OsStrExt;
+        let odd = root.path().join(std::ffi::OsStr::from_bytes(b"donn\xe9es"));
+        if wh == "nonutf8" { std::fs::create_dir(&odd).unwrap(); }
+        let start_cwd = std::env::current_dir().unwrap();
+        if wh == "relchdir" { std::env::set_current_dir(root.path()).unwrap(); }
+        let cfg = if wh == "missing" { conf.join("not-there").join("x") } else if wh == "nonutf8" { odd.clone() }
+                  else if wh == "relchdir" { std::path::PathBuf::from("c") } else { conf.clone() };
         std::env::set_var("TMPDIR", if wh == "env" { &conf } else { &other });
         let before = listing(root.path());
         let during = RefCell::new(Vec::<Sx>::new());
@@ -302,15 +355,18 @@ pub fn run_tmp(args: &[Sx]) -> Sx {
             };
             let mut it = sorter.sort_by(input, cmp).expect("sort_by returned an error");
             snap();
+            if wh == "relchdir" { std::env::set_current_dir(&other).unwrap(); }
             if exit == "returned" { for _ in 0..at { if it.next().is_none() { break; } } snap(); }
             if order == "iter_first" { drop(it); snap(); drop(sorter); } else { drop(sorter); snap(); let rest = it.count(); let _ = rest; }
         }));
+        std::env::set_current_dir(&start_cwd).unwrap();
         std::env::remove_var("TMPDIR");
         let after = listing(root.path());
         emit(a("oracle-only"));
         emit(Sx::L(vec![a("unwound"), a(r.is_err() as u8)]));
         emit(Sx::L(vec![a("built"), a(*built.borrow() as u8)]));
-        emit(Sx::L(vec![a("cfg"), hex(cfg.strip_prefix(root.path()).unwrap().to_string_lossy().as_bytes())]));
+        let cfg_abs = if wh == "relchdir" { conf.clone() } else { cfg.clone() };
+        emit(Sx::L(vec![a("cfg"), hex(cfg_abs.strip_prefix(root.path()).unwrap().as_os_str().as_bytes())]));
         emit(tag("before", before));
         emit(tag("during", during.into_inner()));
         emit(tag("after", after));
